@@ -134,15 +134,30 @@ def pathNextOp : Handler := fun args =>
   let part := getStr args "part"
   Json.mkObj [("next", Json.arr ((TPath.next p part).map Json.str).toArray), ("nextK", Json.arr ((TPath.nextK p part).map Json.str).toArray)]
 
-/-- `Canonical(Merge(Canonical(doc1), doc2))` at `services.s.<attr>` (depends_on, networks, build) -/
+/-- `Canonical(Merge(Canonical(doc1), doc2))` at `services.s.<attr>` (depends_on, networks, build): the attribute-level
+model `twoDocsAt` and, under "whole", the whole-tree model `loadDocsC` on `{services: {s: {<attr>: doc}}}` (same outcome format) -/
 def twoDocsOp : Handler := fun args =>
   match Val.ofJson (getObj args "doc1"), Val.ofJson (getObj args "doc2") with
   | .ok v1, .ok v2 =>
-    match twoDocsAt (getStr args "attr") v1 v2 with
+    let attr := getStr args "attr"
+    let wrap (v : Val) : Val := .map [("services", .map [("s", .map [(attr, v)])])]
+    let unwrap (v : Val) : Val :=
+      match v with
+      | .map top => match Val.lookup "services" top with
+        | some (.map svcs) => match Val.lookup "s" svcs with
+          | some (.map sv) => (Val.lookup attr sv).getD .null
+          | _ => .null
+        | _ => .null
+      | _ => .null
+    let whole : Json := match loadDocsC false (wrap v1) [wrap v2] with
+      | .ok r => Json.mkObj [("ok", (unwrap r).toJson)]
+      | .err _ => Json.mkObj [("err", "err")]
+      | .panic s => Json.mkObj [("panic", s)]
+    match twoDocsAt attr v1 v2 with
     | none => Json.mkObj [("bad", "attr")]
-    | some (.ok r) => Json.mkObj [("ok", r.toJson)]
-    | some (.err _) => Json.mkObj [("err", "err")]
-    | some (.panic s) => Json.mkObj [("panic", s)]
+    | some (.ok r) => Json.mkObj [("ok", r.toJson), ("whole", whole)]
+    | some (.err _) => Json.mkObj [("err", "err"), ("whole", whole)]
+    | some (.panic s) => Json.mkObj [("panic", s), ("whole", whole)]
   | _, _ => Json.mkObj [("bad", "tree")]
 
 def handlers : List (String × Handler) := [
